@@ -243,6 +243,8 @@ func genUUID(t *rapid.T, env *Env, path string) [16]byte {
 	}
 }
 
+var longStrings = []string{strings.Repeat("t", 32767), strings.Repeat("n", 32740), strings.Repeat("\x01", 8200), strings.Repeat("k", 250), strings.Repeat("q", 16384)}
+
 var hostileStrings = []string{"", " ", "a", "no-such-topic", "ünïcødé-☃", "日本語", "a/b", "..", "topic with space", "UPPER", "x\x00y", strings.Repeat("l", 255), "__consumer_offsets"}
 
 func genString(t *rapid.T, name string, env *Env, sh *Shape, path string) string {
@@ -262,7 +264,16 @@ func genString(t *rapid.T, name string, env *Env, sh *Shape, path string) string
 	}
 	k := rapid.IntRange(0, 9).Draw(t, path+"?s")
 	var s string
+	if len(pool) > 0 && rapid.IntRange(0, 19).Draw(t, path+"?long") == 0 {
+		// names at the limits of the wire format: STRING carries up to 32767 bytes; servers
+		// echo names into replies and into error texts
+		k = -1
+	}
 	switch {
+	case k < 0:
+		s = rapid.SampledFrom(longStrings).Draw(t, path)
+		sh.Odd++
+		sh.add("long-name")
 	case k <= 5 && len(pool) > 0:
 		s = rapid.SampledFrom(pool).Draw(t, path)
 	case k <= 7:
